@@ -66,6 +66,9 @@ var badHdrNames = []string{"X Bad", "X:Colon", "X\r\nInjected", "", "Xé", "X\x0
 
 func genHdrValue(r *hk.Rand) string {
 	v := genValue(r)
+	for i := 0; i < 3 && !valueSendable(v) && r.Chance(75); i++ { // keep refusals a minority
+		v = genValue(r)
+	}
 	if len(v) > 200 {
 		v = v[:200]
 	}
@@ -75,7 +78,15 @@ func genHdrValue(r *hk.Rand) string {
 	return v
 }
 
-var cookieNames = []string{"sid", "a", "b", "theme", "X-1", "k_2", "sid", "a", "b", "theme", "X-1", "k_2", "sid", "a", "b", "theme", "X-1", "k_2", "a; injected", "a=b", "a b", "", "n\r\nSet-Cookie: x", "é", "a,b"}
+var cookieNames = []string{"sid", "a", "b", "theme", "X-1", "k_2"}
+var badCookieNames = []string{"a; injected", "a=b", "a b", "", "n\r\nSet-Cookie: x", "é", "a,b"}
+
+func genCookieName(r *hk.Rand) string {
+	if r.Chance(4) {
+		return hk.Pick(r, badCookieNames)
+	}
+	return hk.Pick(r, cookieNames)
+}
 var cookieValues = []string{"1", "abc", "", "a=b", "x/y", "a b", "a,b", "tok%20en", "v-1.2_3~", "!#$&'()*+:<=>?@[]^`{|}", "a=b=c", "-._~", "0"}
 
 // values holding bytes outside the cookie-octet set: the call has to fail
@@ -127,12 +138,12 @@ func genScenario(r *hk.Rand, proto int, thorough bool) scenario {
 	// cookies
 	if r.Chance(40) {
 		for i := 0; i < r.Range(1, 3); i++ {
-			sc.ReqCk = append(sc.ReqCk, cookieJ{hk.Pick(r, cookieNames), genCookieValue(r)})
+			sc.ReqCk = append(sc.ReqCk, cookieJ{genCookieName(r), genCookieValue(r)})
 		}
 	}
 	if r.Chance(25) {
 		for i := 0; i < r.Range(1, 2); i++ {
-			sc.CliCk = append(sc.CliCk, cookieJ{hk.Pick(r, cookieNames), genCookieValue(r)})
+			sc.CliCk = append(sc.CliCk, cookieJ{genCookieName(r), genCookieValue(r)})
 		}
 	}
 	if r.Chance(18) {
@@ -609,7 +620,7 @@ func runReqCell(r *hk.Run, o *origin.Origin, sc scenario) {
 		}
 	}
 	coq := fmt.Sprintf("ReqCase %d %s %s", sc.Proto, sc.coqAreq(b), obsCoq)
-	if len(coq) > 9000 || sc.BodyLen > 300000 {
+	if len(coq) > 12000 || sc.BodyLen > 300000 {
 		r.Count("req.model-skipped.long")
 		coq = ""
 	}
